@@ -140,7 +140,91 @@ def t_frame(E):
             E.prove(same_bytes(cur, cellsv), 'assigning one variable changes no other variable or element')
 
 
+def t_peek_after_new_scalar(E):
+    """A variable created after memory has been PEEKed is visible to PEEK as well (history of two steps)."""
+    ds, content = _scenario(E, False)
+    p0 = E.call(ds.varptr, SCALARS[0], []).value
+    E.call(ds._get_var_memory, p0)
+    E.call(ds._get_var_memory, p0 + 1)
+    for nm, tag in ((b'NEW#', 'v_new'), (b'N2%', 'v_n2')):
+        v = _value(E, ds, nm, tag)
+        want = snapshot(v)
+        E.call(ds.scalars.set, nm, v)
+        r = E.call(ds.varptr, nm, [])
+        E.prove(not r.raised, 'VARPTR of the new variable succeeds')
+        if r.raised:
+            continue
+        for k in range(len(want)):
+            g = E.call(ds._get_var_memory, r.value + k)
+            E.prove(not g.raised and g.value == want[k], 'PEEK(VARPTR(v)+k) of a variable created after an earlier PEEK is byte k of its value')
+    for (nm, ix), cellsv in sorted(content.items()):
+        if ix != ():
+            continue
+        p = E.call(ds.varptr, nm, []).value
+        g = E.call(ds._get_var_memory, p)
+        E.prove(not g.raised and g.value == cellsv[0], 'the older variables still read back')
+
+
+def t_varptrstr_dereference(E):
+    """The address VARPTR$ encodes resolves back to the same variable or element (DRAW/PLAY "="+VARPTR$(v))."""
+    ds, content = _scenario(E, False)
+    for (nm, ix), cellsv in sorted(content.items()):
+        pr = E.call(ds.varptr, nm, list(ix))
+        if pr.raised:
+            continue
+        ptr = bytes([{b'%': 2, b'!': 4, b'#': 8}[nm[-1:]]]) + bytes([pr.value % 256, pr.value // 256])
+        r = E.call(ds.get_value_for_varptrstr, ptr)
+        E.prove(not r.raised and r.value is not None, 'the pointer resolves')
+        if not r.raised and r.value is not None:
+            E.prove(same_bytes(cells(r.value), cellsv), 'to the value of exactly that variable or element')
+
+
+ERASE_ARRAYS = [(b'P#', [3]), (b'Q%', [1]), (b'R!', [2]), (b'S%', [0])]
+
+
+def t_erase_then_peek(E, erase):
+    """ERASE of several arrays in one statement: the survivors keep their values, PEEK at their new
+    VARPTR shows them, storage stays disjoint and inside the array area, and the next DIM does not overlap."""
+    ds = _segment(E)
+    content = {}
+    for nm, dims in ERASE_ARRAYS:
+        E.call(ds.arrays.allocate, nm, dims)
+        for i in range(dims[0] + 1):
+            v = _value(E, ds, nm, 'a_%s_%d' % (nm.decode(), i))
+            content[(nm, i)] = snapshot(v)
+            E.call(ds.arrays.set, nm, [i], v)
+    r = E.call(ds.arrays.erase_, iter(list(erase)))
+    E.prove(not r.raised, 'ERASE of existing arrays succeeds')
+    E.call(ds.arrays.allocate, b'T%', [1])
+    t = _value(E, ds, b'T%', 'v_t')
+    E.call(ds.arrays.set, b'T%', [1], t)
+    content[(b'T%', 1)] = snapshot(t)
+    ranges = []
+    for (nm, i), cellsv in sorted(content.items()):
+        if nm in erase:
+            E.prove(nm not in ds.arrays._dims, 'an erased array is gone')
+            continue
+        pr = E.call(ds.varptr, nm, [i])
+        E.prove(not pr.raised, 'VARPTR of a surviving element succeeds')
+        if pr.raised:
+            continue
+        pp = pr.value
+        ranges.append((pp, pp + len(cellsv)))
+        for k in range(len(cellsv)):
+            g = E.call(ds._get_var_memory, pp + k)
+            E.prove(not g.raised and g.value == cellsv[k], 'PEEK(VARPTR(element)+k) of a surviving array is byte k of its value')
+    lo = E.call(ds.var_current).value
+    hi = lo + ds.arrays.current
+    ranges.sort()
+    E.prove(all(a[1] <= b[0] for a, b in zip(ranges, ranges[1:])), 'storage of surviving and new elements never overlaps')
+    E.prove(all(lo <= a and b <= hi for a, b in ranges), 'all of it lies inside the array area')
+
+
 TASKS = [
+    Task('VARPTR$ dereference', t_varptrstr_dereference),
+    Task('PEEK after a new scalar', t_peek_after_new_scalar),
+    Task('ERASE several arrays, then PEEK', t_erase_then_peek,
+         cases=[{'erase': e} for e in ((b'P#', b'Q%'), (b'Q%', b'P#'), (b'P#',), (b'Q%', b'R!'), (b'P#', b'R!', b'Q%'))]),
     Task('PEEK(VARPTR(v)+k)', t_peek_matches, cases=[{'late_scalar': l} for l in (False, True)]),
     Task('variable records', t_records),
     Task('assignment frame', t_frame),
